@@ -456,23 +456,23 @@ theorem prepare_notNull {src : ValueRange} {t : Ty} {r : Value} {rf : Rfn}
 /-! ### the wrapper on null and unknown values, exactly -/
 
 theorem apply_null_exact {E : Env} (hU : UnifyLaws E) {v : Value} {want : Ty} {uns : Bool} {p : Plan}
-    (fuel : Nat) (hp : RegularPair E v want) (hg : getConv E v.ty want uns = some p)
+    (fuel : Nat) (hp : RegularPair v want) (hg : getConv E v.ty want uns = some p)
     (hm : v.isMarked = false) (hk : v.isKnown = true) (hn : v.isNull = true) :
     apply E (fuel + 1) p v = .ok (Value.null want.stripOpt) := by
   obtain ⟨c, _, rfl⟩ := Option.map_eq_some_iff.mp hg
   have hc := hp.conds
   have hnd : want.isDyn = false := not_isDyn_of_noDyn hp.noDyn
-  have hrepl := dynRepl_id E hU v.ty want hc.reg hc.dynO hc.wfO
+  have hrepl := dynRepl_id E v.ty want hc.dynO hc.wfO
   simp [apply, applyStep, hm, hnd, hk, hn, hrepl]
 
 theorem apply_unknown_exact {E : Env} (hU : UnifyLaws E) {v : Value} {want : Ty} {uns : Bool} {p : Plan}
-    (fuel : Nat) (hp : RegularPair E v want) (hg : getConv E v.ty want uns = some p)
+    (fuel : Nat) (hp : RegularPair v want) (hg : getConv E v.ty want uns = some p)
     (hm : v.isMarked = false) (hk : v.isKnown = false) :
     apply E (fuel + 1) p v = (Refine.range v).bind fun rng => prepareUnknownResult rng want.stripOpt := by
   obtain ⟨c, _, rfl⟩ := Option.map_eq_some_iff.mp hg
   have hc := hp.conds
   have hnd : want.isDyn = false := not_isDyn_of_noDyn hp.noDyn
-  have hrepl := dynRepl_id E hU v.ty want hc.reg hc.dynO hc.wfO
+  have hrepl := dynRepl_id E v.ty want hc.dynO hc.wfO
   simp [apply, applyStep, hm, hnd, hk, hrepl]
 
 end Convert
